@@ -169,6 +169,11 @@ impl Decoder {
                 .get_bytes(1)
                 .ok_or(DecodingError::UnexpectedFin)?[0] as usize;
 
+            // `(byte & 0x7F) << power` must neither shift out of range nor lose bits
+            if power >= usize::BITS as usize || (byte & 0x7F) > (usize::MAX >> power) {
+                return Err(DecodingError::IntegerOverflow);
+            }
+
             value = value
                 .checked_add((byte & 0x7F) << power)
                 .ok_or(DecodingError::IntegerOverflow)?;
